@@ -74,6 +74,8 @@ impl DynGroup {
                 error!("{} validation failed {:?}", Attribute::DynGroupFilter, e);
                 e
             })?;
+            // Dynamic groups only ever contain live entries.
+            let scope_i = Filter::join_parts_and(filter!(f_pres(Attribute::Class)), scope_i);
 
             trace!(dyngroup_filter = ?scope_i);
 
@@ -152,6 +154,8 @@ impl DynGroup {
                 error!("dyngroup_filter validation failed {:?}", e);
                 e
             })?;
+            // Dynamic groups only ever contain live entries.
+            let scope_i = Filter::join_parts_and(filter!(f_pres(Attribute::Class)), scope_i);
 
             let uuid = nd_group.get_uuid();
 
